@@ -355,9 +355,9 @@ PROPS = {
     },
     'C12': {
         'budget': _merge(_p('subs', 260, 4000)),
-        'projection': [(r'events', None)],
-        'own_ops': {'LISTEN'},
-        'rule': "seeded histories (profile subs): random subscription masks (all 64) and component restrictions installed through listener.Callback, changed during the history; delivered events compared with the model's filtered stream",
+        'projection': [(r'events', None), (r'res:LISTEND', None)],
+        'own_ops': {'LISTEN', 'LISTEND'},
+        'rule': "seeded histories (profile subs): random subscription masks (all 64) and component restrictions installed through listener.Callback and listener.Dispatch (sub-listeners given to NewDispatch, added before and after SetListener), changed during the history; delivered events compared with the model's filtered stream, and the Dispatch's own Subscriptions()/Components() after all additions compared with the model's outer_cfg",
     },
     'C13': {
         'budget': _merge(_p('mixed', 40, 400)),
